@@ -394,6 +394,8 @@ def sendReserveLocal (s : Streams) : Streams × Except UserError Nat := s.sendOp
 def sendPushPromise (s : Streams) (parent : Nat) (promisedKey promisedId : Nat) (fields : List Hpack.Field) :
     Streams × Except UserError Unit :=
   if !s.actions.send.isPushEnabled then (s, .error .peerDisabledServerPush)
+  -- the parent has to be a stream we may still send on (nothing but RST_STREAM follows END_STREAM or a reset)
+  else if (s.stream parent).state.isSendClosed then (s, .error .inactiveStreamId)
   else match checkHeaders fields with
     | .error e => (s, .error e)
     | .ok _ => (s.queueFrame parent (.pushPromise promisedKey promisedId fields), .ok ())
